@@ -142,6 +142,8 @@ class Sim:
         self.inflight = 0
         self.boost = None  # [SimThread, remaining decisions]
         self.sleep_interrupt = None
+        self.stall_timeouts = 0
+        self.stall_timeout_cap = cfg.get("stall_timeout_cap", 60)
 
     # ------------------------------------------------------------------ util
     def count(self, key, n=1):
@@ -283,6 +285,24 @@ class Sim:
                 best = (k, (d, n, cb))
         return best
 
+    def _bound_stalls(self):
+        """Keeps runs bounded: a simulator-injected stall lets at most
+        `stall_timeout_cap` queue-wait timeouts expire; then it ends (its
+        deadline is pulled in to now).  'Arbitrarily slow' is preserved
+        qualitatively - dozens of consecutive timeouts - without letting a
+        30 s stall against 10 ms timeouts cost tens of thousands of steps."""
+        stalled = [t for t in self.threads
+                   if t.state == BLOCKED and t.block_kind == "stall"]
+        if not stalled:
+            return
+        self.stall_timeouts += 1
+        if self.stall_timeouts > self.stall_timeout_cap:
+            for t in stalled:
+                if t.deadline is not None and t.deadline > self.now:
+                    t.deadline = self.now
+            self.stall_timeouts = 0
+            self.count("stall_cut_short")
+
     def _pick(self):
         while True:
             run = [t for t in self.threads if t.state == RUNNABLE]
@@ -296,6 +316,9 @@ class Sim:
                         self.count("timer_fired_early")
                     if obj.block_kind == "get":
                         self.count("timeout_fired")
+                        self._bound_stalls()
+                    elif obj.block_kind == "stall":
+                        self.stall_timeouts = 0
                     self._wake(obj, "timeout")
                 else:
                     self.timers.remove(obj)
@@ -499,13 +522,13 @@ class Sim:
     def _line_tracer(self, frame, event, arg):
         if event == "line" and not self.finished and not self.aborting:
             self.count("line_events")
-            if self.tape.chance(*self.p_preempt):
+            if not self.fair and self.tape.chance(*self.p_preempt):
                 self.count("preempt")
                 self.step("preempt", frame.f_lineno)
         return self._line_tracer
 
     # ------------------------------------------------------------------- run
-    def run(self, mainfn, wall=60.0):
+    def run(self, mainfn, wall=100.0):
         global CURRENT
         if CURRENT is not None and not CURRENT.finished:
             raise RuntimeError("nested simulation")
